@@ -72,6 +72,7 @@ type ContractFile struct {
 	Imports   []string // raw import specs: `alias "path"` or `"path"`
 	Ghosts    []string // raw "name Type [= expr]"
 	SpecLines []string // verbatim Go
+	Recs      []string // names of recursive spec functions
 	Contracts []*Contract
 	Lemmas    []*Lemma
 }
@@ -86,7 +87,7 @@ type Lemma struct {
 	Line    int
 }
 
-var keywordRe = regexp.MustCompile(`^(requires|ensures|modifies|loop|inline|pure|trusted|effect|func|extern|ghost|spec|import|decreases|assert|lemma)\b`)
+var keywordRe = regexp.MustCompile(`^(requires|ensures|modifies|loop|inline|pure|trusted|effect|func|extern|ghost|spec|import|decreases|assert|lemma|rec)\b`)
 var labelRe = regexp.MustCompile(`^([A-Za-z][A-Za-z0-9_-]*):\s+`)
 
 // ParseContractFile reads all `//@` lines of path.
@@ -137,6 +138,9 @@ func ParseContractFile(path, pkgPath string) (*ContractFile, error) {
 		switch kw {
 		case "import":
 			cf.Imports = append(cf.Imports, rest)
+			last = nil
+		case "rec":
+			cf.Recs = append(cf.Recs, strings.Fields(rest)...)
 			last = nil
 		case "ghost":
 			rest = strings.TrimSpace(strings.TrimPrefix(rest, "var"))
@@ -190,13 +194,18 @@ func ParseContractFile(path, pkgPath string) (*ContractFile, error) {
 			var n int
 			var kind string
 			f := strings.Fields(rest)
-			if len(f) < 3 {
+			if len(f) < 2 || len(f) < 3 && f[1] != "localwrites" {
 				return nil, fmt.Errorf("%s:%d: malformed loop clause", path, ln+1)
 			}
 			if _, err := fmt.Sscanf(f[0], "%d", &n); err != nil {
 				return nil, fmt.Errorf("%s:%d: loop ordinal: %v", path, ln+1, err)
 			}
 			kind = f[1]
+			if kind == "localwrites" {
+				cur.Clauses = append(cur.Clauses, &Clause{Kind: "localwrites", Loop: n, File: path, Line: ln + 1})
+				last = nil
+				continue
+			}
 			if kind != "invariant" && kind != "decreases" {
 				return nil, fmt.Errorf("%s:%d: loop clause kind %q", path, ln+1, kind)
 			}
@@ -506,7 +515,21 @@ func desugarGroups(s string, oldType func(string) (string, error)) (string, erro
 					return "", fmt.Errorf("quantifier without :: in %q", grp)
 				}
 				vars := strings.Split(body[:k], ",")
-				inner, err := desugarGroups(strings.TrimSpace(body[k+2:]), oldType)
+				ot := oldType
+				if oldType != nil {
+					vs := vars
+					ot = func(arg string) (string, error) {
+						for _, v := range vs {
+							f := strings.Fields(strings.TrimSpace(v))
+							if len(f) >= 2 {
+								re := regexp.MustCompile(`\b` + regexp.QuoteMeta(f[0]) + `\b`)
+								arg = re.ReplaceAllString(arg, "(*new("+strings.Join(f[1:], " ")+"))")
+							}
+						}
+						return oldType(arg)
+					}
+				}
+				inner, err := desugarGroups(strings.TrimSpace(body[k+2:]), ot)
 				if err != nil {
 					return "", err
 				}
